@@ -6,13 +6,22 @@ pub mod mpsc {
     #[verifier::external_body] pub struct UnboundedSender { _p: u8 }
     #[verifier::external_body] pub struct UnboundedReceiver { _p: u8 }
     pub struct SendErr;
+    /// `mpsc::unbounded_channel()`: the two ends of one fresh queue
+    #[verifier::external_body]
+    pub fn unbounded_channel() -> (r: (UnboundedSender, UnboundedReceiver))
+        ensures r.0.chan() == r.1.chan()
+    { unimplemented!() }
     impl UnboundedSender {
+        /// identity of the queue this sender feeds
+        pub uninterp spec fn chan(&self) -> int;
         #[verifier::external_body]
         pub fn send(&self, v: u64, Tracked(fx): Tracked<&mut QFx>) -> (r: Result<(), SendErr>)
             ensures final(fx).log == old(fx).log.push(QEffect::Sent { v })
         { unimplemented!() }
     }
     impl UnboundedReceiver {
+        /// identity of the queue this receiver drains
+        pub uninterp spec fn chan(&self) -> int;
         /// what the next poll_recv will answer (prophecy-style ghost: lets a wrapper be specified as "forwards")
         pub uninterp spec fn next_answer(&self) -> Poll<Option<u64>>;
         #[verifier::external_body]
